@@ -46,7 +46,7 @@ static long consume(struct cds_wfcq_node *cn)
 	long id;
 	if (!cn)
 		return -1;
-	n = caa_container_of(cn, struct qnode, n);
+	n = caa_container_of(RET_NODE(cn, "wfcq dequeue"), struct qnode, n);
 	id = n->id;
 	if (n->free_on_dequeue)
 		free(n);	/* "it is valid to reuse and free a dequeued node immediately" */
@@ -173,14 +173,14 @@ static void do_op(int me, struct op *op)
 			__cds_wfcq_for_each_blocking(&qh[q], &qt[q], it) {
 				if (H.ops[i].nlist >= WGL_MAXLIST)
 					usim_fail("wfcq-iteration", "iteration of queue %d does not terminate (more than %d nodes visited)", q, WGL_MAXLIST);
-				wgl_list_add(&H, i, caa_container_of(it, struct qnode, n)->id);
+				wgl_list_add(&H, i, caa_container_of(RET_NODE(it, "wfcq iteration (first/next)"), struct qnode, n)->id);
 			}
 		} else {
 			it = __cds_wfcq_first_nonblocking(&qh[q], &qt[q]);
 			while (it && it != CDS_WFCQ_WOULDBLOCK) {
 				if (H.ops[i].nlist >= WGL_MAXLIST)
 					usim_fail("wfcq-iteration", "iteration of queue %d does not terminate", q);
-				wgl_list_add(&H, i, caa_container_of(it, struct qnode, n)->id);
+				wgl_list_add(&H, i, caa_container_of(RET_NODE(it, "wfcq iteration (first/next)"), struct qnode, n)->id);
 				it = __cds_wfcq_next_nonblocking(&qh[q], &qt[q], it);
 			}
 			if (it == CDS_WFCQ_WOULDBLOCK)
@@ -222,7 +222,7 @@ static void do_legacy_op(struct op *op)
 		else
 			cn = __cds_wfq_dequeue_blocking(&lq);
 		if (cn) {
-			struct lnode *n = caa_container_of(cn, struct lnode, n);
+			struct lnode *n = caa_container_of(RET_NODE(cn, "cds_wfq_dequeue"), struct lnode, n);
 			id = n->id;
 			if (id & 1)
 				free(n);
@@ -336,7 +336,7 @@ void scen_wfcq(void)
 			__cds_wfcq_for_each_blocking(&qh[q], &qt[q], it) {
 				if (H.ops[i].nlist >= WGL_MAXLIST)
 					usim_fail("wfcq-iteration", "final iteration of queue %d does not terminate", q);
-				wgl_list_add(&H, i, caa_container_of(it, struct qnode, n)->id);
+				wgl_list_add(&H, i, caa_container_of(RET_NODE(it, "wfcq iteration (first/next)"), struct qnode, n)->id);
 			}
 			wgl_end(&H, i, 0);
 		}
@@ -345,7 +345,7 @@ void scen_wfcq(void)
 		do {
 			i = wgl_begin(&H, WQ_DEQ, 0, 0);
 			cn = __cds_wfq_dequeue_blocking(&lq);
-			wgl_end(&H, i, cn ? caa_container_of(cn, struct lnode, n)->id : -1);
+			wgl_end(&H, i, cn ? caa_container_of(RET_NODE(cn, "cds_wfq_dequeue"), struct lnode, n)->id : -1);
 		} while (cn);
 	}
 	if (!wgl_check(&H, why, sizeof(why)))
